@@ -38,13 +38,13 @@ func c09Opts(st EventStore, hookRuns *int) []Option {
 	return opts
 }
 
-//verif:entry property=C09 tier=both bounds="every subset of 5 other bus options (the context hook also as nil) with WithStore at every position; K publishes (K_quick=2,K_thorough=3) of value, pointer and custom-named events with symbolic fields; store read from inside the handler" cover="published" K_quick=2 K_thorough=3
+//verif:entry property=C09 tier=both bounds="every subset of 5 other bus options (the context hook also as nil) with WithStore at every position; K publishes (K_quick=2,K_thorough=3) of value, pointer, custom-named and value-named events with symbolic fields, on a store that honours its context; store read from inside the handler" cover="published" K_quick=2 K_thorough=3
 func harnessC09Config() {
 	K := vParam("K", 2)
 	ctx := context.Background()
 	st := NewMemoryStore()
 	hookRuns := 0
-	bus := New(c09Opts(st, &hookRuns)...)
+	bus := New(c09Opts(ctxStore{st}, &hookRuns)...) // a store that honours its context, like the SQLite one
 	evNamedName = vStr("custom-name")
 
 	// handlers look at the store while they run
@@ -60,6 +60,7 @@ func harnessC09Config() {
 	Subscribe(bus, func(e evA) { peek() })
 	Subscribe(bus, func(e *evA) { peek() })
 	Subscribe(bus, func(e evNamed) { peek() })
+	Subscribe(bus, func(e evDyn) { peek() })
 
 	type want struct {
 		typ  string
@@ -69,7 +70,7 @@ func harnessC09Config() {
 	}
 	var wants []want
 	for i := 0; i < K; i++ {
-		kind := vInt(0, 2)
+		kind := vInt(0, 3)
 		n := vInt(-5, 5)
 		seenAtHandler = -1
 		switch kind {
@@ -85,6 +86,10 @@ func harnessC09Config() {
 			e := evNamed{N: n}
 			Publish(bus, e)
 			wants = append(wants, want{EventType(e), n, "", 2})
+		case 3:
+			e := evDyn{Name: vStr("dyn-name"), N: n} // the name is a property of the value
+			Publish(bus, e)
+			wants = append(wants, want{e.Name, n, "", 3})
 		}
 		// recorded before delivery: the handler already saw this publish's record
 		vAssert(seenAtHandler == i+1, "record-visible-to-handler")
@@ -106,9 +111,12 @@ func harnessC09Config() {
 			var d evNamed
 			vAssert(json.Unmarshal(evs[i].Data, &d) == nil, "record-decodes")
 			vAssert(d.N == wants[i].n, "record-decodes-to-published-value")
+		case 3:
+			var d evDyn
+			vAssert(json.Unmarshal(evs[i].Data, &d) == nil, "record-decodes")
+			vAssert(d.N == wants[i].n && d.Name == wants[i].typ, "record-decodes-to-published-value")
 		}
 	}
-	vAssert(wants[0].typ != "" || evNamedName == "", "type-name-nonempty")
 	vCover("published")
 }
 
